@@ -302,6 +302,7 @@ func Write(path string, offset int64, newVersion Version, opts Params, index []I
 	if err := os.Rename(tmp, path); err != nil {
 		return fmt.Errorf("write index rename: %w", err)
 	}
+	verifhook.FS("rename", tmp+"\x00"+path, 0, 0)
 	return nil
 }
 
